@@ -8,13 +8,13 @@ ASYNC_FORMS = ['await', 'awaitexpr', 'awaitprint', 'gather', 'asyncwith', 'async
 NPTS = {'for': 2, 'if': 2, 'try': 2, 'tryexc': 2, 'semi': 2, 'semiemit': 2, 'multicall': 2, 'asyncwith': 3,
         'asyncfor': 2, 'comment': 0, 'blankprompt': 0, 'directive': 0, 'defhelper': 0, 'defemit': 0, 'defclass': 0,
         'asyncdef': 0, 'badcompile': 0, 'usename': 0, 'useG': 0, 'useshadow': 0, 'delconst': 0, 'hasconst': 0,
-        'decodef2': 2, 'bgtask': 3, 'useclass': 0, 'trysibling': 2, 'regappend': 0}
-MULTILINE_FORMS = {'bgtask', 'trysibling', 'for', 'if', 'with', 'try', 'tryexc', 'multiline', 'multicall', 'tq', 'tqprint', 'defhelper',
+        'decodef2': 2, 'chainexc': 2, 'bgtask': 3, 'useclass': 0, 'trysibling': 2, 'regappend': 0}
+MULTILINE_FORMS = {'bgtask', 'trysibling', 'chainexc', 'for', 'if', 'with', 'try', 'tryexc', 'multiline', 'multicall', 'tq', 'tqprint', 'defhelper',
                    'defemit', 'asyncwith', 'asyncfor', 'asyncdef', 'defclass', 'decoclass', 'decoasync', 'decodef2'}
 # forms in which a point may raise without the doctest's own code handling it
 TB_FORMS = {'expr', 'print', 'emit', 'multiline', 'assign', 'callmod', 'callmod_expr', 'callhelper',
             'callhelper_expr', 'for', 'with', 'semi', 'write', 'awaitexpr', 'await', 'semiemit', 'try', 'if',
-            'multicall', 'emitop'}
+            'multicall', 'emitop', 'chainexc'}
 # forms whose points are reached one after the other: the raising point may be
 # a later one, so that the statement has already written to stdout (or bound a
 # name) when the expected exception arrives
@@ -36,6 +36,8 @@ NOMINAL_EXCS = [
     {'exc': 'mod:%(modname)s.SimLocalError', 'msg': 'boom %s'},
     {'exc': 'SimError', 'msg': 'boom %s'},
     {'exc': 'ValueError', 'msg': 'boom %s went wrong.'},
+    {'exc': 'LookupError', 'msg': 'boom %s'},
+    {'exc': 'ArithmeticError', 'msg': 'boom %s'},
     {'exc': 'RuntimeError', 'msg': 'boom %s in file data.txt'},
 ]
 
@@ -163,6 +165,10 @@ def gen_steps(rng, cfg, pfx, modname):
                     e['msg'] = e['msg'] % W.tok(st['pts'][0])
                 if want == 'tbell' and not e['msg']:
                     want = 'tb'
+                if form == 'chainexc':
+                    st['raise_at'] = 1      # the exception that propagates comes from the handler
+                    if rng.random() < 0.4:
+                        want = 'tbinner'    # names the handled exception instead of the raised one: must fail
                 st['exc'] = e
                 if form in SEQ_FORMS and rng.random() < cfg.p_raise_later:
                     st['raise_at'] = 1
@@ -176,6 +182,10 @@ def gen_steps(rng, cfg, pfx, modname):
                         cands.append(wk)
                     if wk == 'repr' and has_value:
                         cands.append(wk)
+                if cfg.get('p_none_want') and form in ('emit', 'print') and not chunk_semi and rng.random() < cfg['p_none_want']:
+                    # the statement's value is None: its repr is a want the property accepts
+                    # (not in REPL mode, where a None value is not a value)
+                    cands = ['none']
                 if prints and has_value and chunk_semi:
                     # a statement that prints *and* has a value, run in REPL mode
                     # (';' in its chunk): which text satisfies a want there is what
@@ -252,6 +262,8 @@ def gen_module(rng, cfg, mi, pkg):
             cls['doc'] = gen_doc(rng, cfg, pfx + 'K', modname)
         for mj in range(rng.randint(1, 2)):
             m = {'name': 'meth%d' % mj, 'doc': gen_doc(rng, cfg, '%sk%d' % (pfx, mj), modname)}
+            if cfg.get('p_name_clash') and rng.random() < cfg['p_name_clash']:
+                m['name'] = 'f%d' % mj          # a method named like a module-level function
             r = rng.random()
             if r < 0.2:
                 m['decos'] = ['staticmethod']
@@ -266,10 +278,11 @@ def gen_world(rng, cfg):
     nm = rng.randint(*cfg.n_modules)
     world = {'modules': [], 'init_files': ['simpkg/__init__.py']}
     sub = rng.random() < cfg.p_subpkg
+    subname = rng.choice(['sub', 'sub', '_sub'])      # a private sub-package is a package too
     if sub:
-        world['init_files'].append('simpkg/sub/__init__.py')
+        world['init_files'].append('simpkg/%s/__init__.py' % subname)
     for mi in range(nm):
-        pkg = 'simpkg.sub' if (sub and mi == nm - 1 and nm > 1) else 'simpkg'
+        pkg = ('simpkg.' + subname) if (sub and mi == nm - 1 and nm > 1) else 'simpkg'
         world['modules'].append(gen_module(rng, cfg, mi, pkg))
     return world
 
@@ -348,7 +361,7 @@ def fix_chunk_starts(steps):
                     and not st.get('inline'):
                 st['sep'] = 'blank'
                 semi = False
-        if w and st['form'] in ('emitop', 'coroexpr') and semi:
+        if (w and st['form'] in ('emitop', 'coroexpr') and semi) or (w == 'none' and semi):
             st['sep'] = 'blank'
             semi = False
         if prev is not None and prev['form'] == 'bgtask' and not prev.get('want') and st.get('sep', 'none') == 'none':
